@@ -515,6 +515,18 @@ M("r16-restored-tail-without-token-numbers", ["C12"], "break",
   [("yaep.c", "      pl[++pl_curr] = state->pl_tail[i];\n      pl_tok_nums[pl_curr] = state->pl_tail_tok_nums[i];\n", "      pl[++pl_curr] = state->pl_tail[i];\n")], "set_recovery_state/pl-store")
 M("r16-revert-F27-token-from-set-number", ["C12"], "break",
   [("yaep.c", "	  tok_num = pl_tok_nums[pl_ind];\n	  pl_ind--;		/* l */", "	  pl_ind--;		/* l */\n	  tok_num = pl_ind;")], "[set-number]")
+M("r13-walk-from-unpruned-root", ["C13", "C04"], "break",
+  [("yaep.c", "  root = prune_to_minimal (root, &cost);\n  traverse_pruned_translation (root);", "  {\n    struct yaep_tree_node *pruned = prune_to_minimal (root, &cost);\n    traverse_pruned_translation (root);\n    root = pruned;\n  }")],
+  "find_minimal_translation/walk-from-pruned-root")
+M("r16-back-cost-counts-error-sets", ["C06", "C12"], "break",
+  [("yaep.c", "    else if (pl[curr_pl]->core->term != grammar->term_error)\n      (*cost)++;", "    else\n      (*cost)++;")], "find_error_pl_set/error-sets-not-counted")
+M("r12-term-set-number-from-table-count", ["C17", "C14"], "break",
+  [("yaep.c", "      tab_term_set_ptr->num = (VLO_LENGTH (term_sets_ptr->tab_term_set_vlo)\n			       / sizeof (struct tab_term_set *));", "      tab_term_set_ptr->num = hash_table_elements_number (term_sets_ptr->term_set_tab) - 1;")],
+  "term_set_insert/number-is-vector-index")
+M("r22-term-set-test-narrowed", ["C01", "C09"], "break",
+  [("yaep.c", "  return (set[ind] & bit) != 0;", "  return set[ind] & bit;")], "term_set_test/narrowed-bit-test")
+M("r22-nullable-skip-needs-tail", ["C01", "C05"], "break",
+  [("yaep.c", "	  if (symb->empty_p && i >= new_core->n_all_dists)", "	  if (symb->empty_p && i >= new_core->n_all_dists\n	      && sit->pos + 1 < sit->rule->rhs_len)")], "expand_new_start_set/nullable-skip-unconditional")
 
 # ---- R8 / R2f (C16, C19) ----------------------------------------------------------------------------
 M("r8-revert-F14", ["C19", "C16"], "break", [("hashtab.cpp", "		  entry_ptr = first_deleted_entry_ptr;\n		  *entry_ptr = EMPTY_ENTRY;", "		  entry_ptr = first_deleted_entry_ptr;\n		  *entry_ptr = DELETED_ENTRY;")], "find_hash_table_entry~")
